@@ -655,7 +655,7 @@ func (k *kitchen) buildOps() {
 				}})
 		}
 		// a delete whose not-found answer the caller ignores (the transaction goes on after a FAILED store call)
-		k.add(kOpInfo{"other", id, "people"}, explore.Op{
+		k.add(kOpInfo{"deleteIfPresent", id, "people"}, explore.Op{
 			Name: "deleteIgnoringNotFound@people(" + id + ")",
 			Do: func(ctx boltz.MutateContext) error {
 				if err := k.people.DeleteById(ctx, id); err != nil && !boltz.IsErrNotFoundErr(err) {
